@@ -200,6 +200,25 @@ func (c *Ctx) Violation(key, what string, witness interface{}) {
 }
 
 // ViolationSummaries returns "key: what" for every recorded violation.
+// Guard runs f and waits for it. Work that takes milliseconds gets a bound of minutes: if f has still
+// not returned after d, the operation described by what() is reported as blocked (a call that never
+// returns never takes effect), Guard returns false and the goroutine is abandoned - the caller should
+// stop using whatever f was working on.
+func (c *Ctx) Guard(key string, d time.Duration, what func() string, f func()) bool {
+	done := make(chan struct{})
+	go func() {
+		defer close(done)
+		f()
+	}()
+	select {
+	case <-done:
+		return true
+	case <-time.After(d):
+		c.Violation("blocked:"+key, fmt.Sprintf("%s: no progress for %s; last operation started: %s", key, d, what()), map[string]interface{}{"last_operation": what()})
+		return false
+	}
+}
+
 func (c *Ctx) ViolationSummaries() []string {
 	c.mu.Lock()
 	defer c.mu.Unlock()
